@@ -76,6 +76,23 @@ def check_tree(tokens, res: Res, stats: dict) -> None:
     back = root.to_tokens()
     if len(back) != len(tokens) or any(a is not b for a, b in zip(back, tokens)):
         res.fail("tree:to_tokens-not-identical", f"{[t.type for t in back][:12]} vs {[t.type for t in tokens][:12]}")
+    # sub-trees: every top-level node can be rebuilt from its own token slice without a root
+    pos = 0
+    for child in root.children:
+        own = child.to_tokens()
+        if len(own) != sum(1 for _ in own) or any(a is not b for a, b in zip(own, tokens[pos : pos + len(own)])):
+            res.fail("tree:child-to_tokens", f"{child!r}")
+            break
+        try:
+            sub = SyntaxTreeNode(own, create_root=False)
+        except Exception as e:  # noqa: BLE001
+            res.fail(f"tree:subtree-construction:{type(e).__name__}", repr(e))
+            break
+        st = sub.to_tokens()
+        if sub.type != child.type or sub.is_root or len(st) != len(own) or any(a is not b for a, b in zip(st, own)):
+            res.fail("tree:subtree(create_root=False)", f"{child.type}: type={sub.type!r} is_root={sub.is_root} to_tokens={[t.type for t in st]} expected {[t.type for t in own]}")
+            break
+        pos += len(own)
     walked = list(root.walk(include_self=False))
     expect = list(_flatten_open(tokens))
     got = [n.token if n.token is not None else n.nester_tokens.opening for n in walked]
